@@ -189,6 +189,7 @@ type segArt struct {
 type script struct {
 	name string
 	segs []segArt
+	rare bool // chosen less often (scripts whose failure paths make the proxy wait on its own timers)
 }
 
 func catArts(kind string, parts ...art) art {
@@ -232,6 +233,9 @@ func sessionGen(scripts func(g *gen.Rand) []script, side byte) (func(g *gen.Rand
 	genf := func(g *gen.Rand, st interface{}, i int) ([]byte, string, string) {
 		cur := st.([]script)
 		sc := cur[g.Intn(len(cur))]
+		if sc.rare && g.Intn(8) != 0 {
+			sc = cur[g.Intn(len(cur))]
+		}
 		if i == 0 {
 			sc = cur[0]
 		}
@@ -376,13 +380,13 @@ func mysqlScripts(g *gen.Rand) []script {
 			return pk("stmt_execute", myStmtExecute(2, []myParam{{typ: 8, val: lei(5, 8)}}, 1))
 		}
 		out = append(out,
-			script{"q-" + variant.name, []segArt{
+			script{name: "q-" + variant.name, segs: []segArt{
 				{'D', "handshake", hs}, {'C', "hsresp", hr}, {'D', "auth-ok", authOK},
 				{'C', "query-select", q(sel)}, {'D', "text-result", textRes()},
 				{'C', "query-insert", q("insert into t (id, plain_ab, tok_i32) values (1, 'abc', 77)")}, {'D', "ok", func() art { seq = 1; return pk("ok", myOK()) }()},
 				{'C', "query-bad", q("select * from")}, {'D', "err", func() art { seq = 1; return pk("err", myErr()) }()},
 			}},
-			script{"ps-" + variant.name, []segArt{
+			script{name: "ps-" + variant.name, segs: []segArt{
 				{'D', "handshake", hs}, {'C', "hsresp", hr}, {'D', "auth-ok", authOK},
 				{'C', "prepare-insert", prep(ins)}, {'D', "prepare-insert-resp", prepInsResp()},
 				{'C', "execute-insert", exec1()}, {'D', "ok", func() art { seq = 1; return pk("ok", myOK()) }()},
